@@ -12,6 +12,7 @@ UNIT = dict(
         "AdaptiveService::clone@Clone": dict(),
         "AdaptiveService::poll_ready@Service": dict(rules=[
             ("addarg", ["limit", "load"], TR, 2),
+            ("addarg", ["fetch_add", "fetch_sub"], TR, -1),
             ("R10p", "AdaptiveError::Service"),
         ]),
         "AdaptiveService::call@Service": dict(rules=[
@@ -20,7 +21,8 @@ UNIT = dict(
             ("R4",), ("R3",), ("R5",),
             ("sub", "ledger-guard", r"InFlightGuard\(((?:[^()]|\([^()]*\))*)\)", r"vx_guard(InFlightGuard(\1), Tracked(tr))", 1),
             ("sub", "ledger-drop", r"\bdrop\(in_flight_guard\)", "vx_drop_guard(in_flight_guard, Tracked(tr))", 1),
-            ("addarg", ["fetch_add", "call", "record_success", "record_failure"], TR, 4),
+            ("addarg", ["fetch_add", "fetch_sub"], TR, -1),
+            ("addarg", ["call", "record_success", "record_failure"], TR, 3),
             ("sub", "R6-limit", r"algorithm\.limit\(\)", "algorithm.limit(Tracked(tr))", 2),
             ("R10e", 1),
         ]),
